@@ -129,7 +129,7 @@ func genC05(g *Rng, tier string, emit func(Op)) {
 					if sgn, err := gabi.SignMessageBlock(kp.sk, pk, msn); err == nil {
 						neg := append([]*big.Int{}, msn...)
 						neg[j] = new(big.Int).Neg(msn[j])
-						emit(sigOp(kp.id, sgn, neg, "negated-oversized-message", "reject").with("nomodel", true).with("fkey", "C05/negated-oversized-message"))
+						emit(sigOp(kp.id, sgn, neg, "negated-oversized-message", "reject").with("fkey", "C05/negated-oversized-message"))
 					}
 				}
 			}
